@@ -191,6 +191,15 @@ def _set_integer_constraints_from_physical_type(expression, physical_type, type_
         expression.type.integer.minimum_value = "-infinity"
         expression.type.integer.maximum_value = "infinity"
         return
+    if type_size < 1:
+        # A zero-width integer is rejected by the type's static_requirements in a
+        # later pass; until then, give it the consistent constant range [0, 0]
+        # (the formulas below would produce 2 ** -1 == 0.5 for `Int`).
+        expression.type.integer.minimum_value = "0"
+        expression.type.integer.maximum_value = "0"
+        expression.type.integer.modulus = "infinity"
+        expression.type.integer.modular_value = "0"
+        return
     name = tuple(physical_type.atomic_type.reference.canonical_name.object_path)
     if name == ("UInt",):
         expression.type.integer.minimum_value = "0"
